@@ -216,7 +216,11 @@ def gen(rng, tier):
     for sep1 in (b" ", b"\t", b"  ", b""):
         for sep2 in (b" ", b"\t", b"  ", b""):
             cs.append(try_case(200, b"GET" + sep1 + b"/" + sep2 + b"HTTP/1.1" + CRLF2, ["reqline-sep"]))
-    for ver in (b"HTTP/1.0", b"HTTP/1.1", b"HTTP/1.10", b"http/1.1", b"HTTP/1.1 ", b"HTTP/2", b"HTTP/1.1\t", b"X", b""):
+    for ver in (b"HTTP/1.0", b"HTTP/1.1", b"HTTP/1.10", b"http/1.1", b"HTTP/1.1 ", b"HTTP/2", b"HTTP/1.1\t", b"X", b"",
+                # the version is a spelling, not two numbers: nothing that merely parses as 1 and 1 is HTTP/1.1
+                b"HTTP/01.1", b"HTTP/1.01", b"HTTP/+1.1", b"HTTP/1.+1", b"HTTP/001.001", b"HTTP/1.1.", b"HTTP/1,1", b"HTTP/ 1.1",
+                b"HTTP/1.1\x00", b"HTTP/1. 1", b"HTTP/-1.1", b"HTTP/1.-1", b"HTTP/257.1", b"HTTP/1.257", b"HTTP/1.1e0", b"HTTP/0x1.1",
+                b"HTTP/1", b"HTTP/1.", b"HTTP/.1", b"HTTP//1.1", b"HTTP1.1", b"HTTPS/1.1", b"HTTP/\xef\xbc\x91.1"):
         cs.append(try_case(200, b"GET / " + ver + CRLF2, ["version"]))
         cs.append(try_case(200, b"GET / " + ver + b"\r\nA: b" + CRLF2, ["version"]))
     for le in (b"\r\n", b"\n", b"\r\r\n", b"\r\r\r\n", b"\n\r", b"\r"):
